@@ -18,6 +18,22 @@ Proof. exact auto_at_least_std. Qed.
 Theorem C15_table_wf : wf_data_known = true.
 Proof. vm_compute. reflexivity. Qed.
 
+(* constructors that skip the duplicate check (new, new_ref, OwnedLockCollection) demand OwnedLockable: for EVERY type of
+   the (unboundedly nested) language, if rustc derives OwnedLockable for it from the impls of the current tree, the type
+   owns every lock reachable through it — no shared reference and no RefLockCollection on the way — so it cannot contain
+   the same lock twice *)
+Theorem C15_ownedlockable_owns : forall t, ol t = true -> owns t = true.
+Proof. apply ownedlockable_owns. vm_compute. reflexivity. Qed.
+Check C15_ownedlockable_owns : forall t, ol t = true -> owns t = true.
+
+Example C15_ownedlockable_examples :
+  ol (TTuple [TCon "Mutex" (TPay true true); TCon "Poisonable" (TCon "RwLock" (TPay false false))]) = true /\
+  ol (TCon "OwnedLockCollection" (TTuple [TMutRef (TCon "Mutex" (TPay true true))])) = true /\
+  ol (TTuple [TRef (TCon "Mutex" (TPay true true))]) = false /\
+  ol (TCon "BoxedLockCollection" (TTuple [TCon "Mutex" (TPay true true); TRef (TCon "Mutex" (TPay true true))])) = false /\
+  ol (TCon "RefLockCollection" (TCon "Mutex" (TPay true true))) = false.
+Proof. vm_compute. repeat split. Qed.
+
 (* a non-thread-safe payload cannot be shared through any lock of the crate *)
 Example C15_cell_not_shared :
   table_impl MSync (TCon "RwLock" (TPay true false)) = false /\
@@ -42,3 +58,4 @@ Qed.
 Print Assumptions C15_auto_traits_at_least_std.
 Print Assumptions C15_table_wf.
 Print Assumptions C15_refuted_scoped_escape.
+Print Assumptions C15_ownedlockable_owns.
